@@ -418,6 +418,8 @@ class Machine:
                 return ('tuple', ops)
             if rv['ak'] == 'adt':
                 return ('obj', dict(zip(rv['fields'], ops)))
+            if rv['ak'] == 'closure':
+                return ('tuple', ops)       # a closure value is the tuple of what it captured (its body was spliced where it ran)
             raise Unsupported('aggregate %s' % rv['ak'])
         if k == 'discr':
             v = self.read(env, rv['p'], line)
@@ -659,6 +661,17 @@ class Machine:
                 l = st['dst']['l']
                 if not st['dst']['proj'] and l in env and env[l][0] == 'p' and l not in carried and b.local_name(l):
                     carried.append(l)
+        # soundness of the template: everything else the loop overwrites must be born inside the loop.  A value that exists
+        # before the loop and is re-assigned in it without being one of the recognised integer accumulators (a tuple
+        # accumulator of a fold, an unnamed temporary) is loop-carried state this engine would silently freeze
+        for bi in blocks:
+            blk_ = b.blocks[bi]
+            dsts = [st['dst']['l'] for st in blk_['stmts']]
+            if blk_['term']['k'] == 'call' and isinstance(blk_['term'].get('dst'), dict):
+                dsts.append(blk_['term']['dst']['l'])
+            for l in dsts:
+                if l in env and l not in carried and env[l][0] in ('p', 'tuple', 'obj'):
+                    raise Unsupported('loop-carried value outside the accumulator template (local _%d: %s)' % (l, b.local_ty(l)))
         # per-iteration symbols
         self.box.d['x'] = (0, 255)
         self.box.d['i'] = (0, self.nmax - 1)
